@@ -20,12 +20,40 @@ func (x hsl) Start() int { return x.s }
 func (x hsl) End() int   { return x.e }
 func (x hsl) Step() int  { return x.p }
 
+// slice lists handed to the library in the current step (whole backing array, with two spare
+// cells) and their contents at that moment: the library must not write to them
+var (
+	handedSl     [][]tensor.Slice
+	handedSlCopy [][]tensor.Slice
+)
+
+func sliceListMutated() bool {
+	bad := false
+	for i, h := range handedSl {
+		for j, v := range handedSlCopy[i] {
+			if h[j] != v {
+				bad = true
+			}
+		}
+	}
+	handedSl, handedSlCopy = handedSl[:0], handedSlCopy[:0]
+	return bad
+}
+
 func parseSlices(s string) []tensor.Slice {
 	if s == "" || s == "-" {
 		return nil
 	}
 	parts := strings.Split(s, "/")
-	out := make([]tensor.Slice, len(parts))
+	full := make([]tensor.Slice, len(parts)+2)
+	full[len(parts)], full[len(parts)+1] = hsl{-7, -7, -7}, hsl{-7, -7, -7}
+	out := full[:len(parts)]
+	defer func() {
+		if trackSpares {
+			handedSl = append(handedSl, full)
+			handedSlCopy = append(handedSlCopy, append([]tensor.Slice{}, full...))
+		}
+	}()
 	for i, p := range parts {
 		if p == "_" {
 			out[i] = nil
@@ -373,11 +401,17 @@ func runProgK(dt string, prog string, keep bool) string {
 		trackSpares = true
 		st := w.step(op)
 		trackSpares = false
+		// marks go at the END of the step's observation (the status is parsed by the driver for its
+		// hints); the model never prints them, so any mark is a difference
+		marks := ""
 		if spareClobbered() {
-			st += "!wrote-beyond-callers-slice"
+			marks += " !wrote-beyond-callers-slice"
 		}
 		if !keep && callerSliceMutated() {
-			st += "!mutated-callers-slice"
+			marks += " !mutated-callers-slice"
+		}
+		if sliceListMutated() {
+			marks += " !mutated-callers-slice-list"
 		}
 		if !keep {
 			scribble() // (progk reports the retained axes lists themselves, so it keeps them intact)
@@ -385,10 +419,10 @@ func runProgK(dt string, prog string, keep bool) string {
 			handed, handedCopy = handed[:0], handedCopy[:0]
 		}
 		if st == "panic" {
-			out = append(out, "panic")
+			out = append(out, "panic"+marks)
 			break
 		}
-		out = append(out, st+w.obsAll())
+		out = append(out, st+w.obsAll()+marks)
 	}
 	return strings.Join(out, " # ")
 }
